@@ -702,6 +702,12 @@ HandleElementResult QXmppOutgoingClient::handleElement(const QDomElement &nodeRe
 
     const QString ns = nodeRecv.namespaceURI();
 
+    // stanzas are neither processed nor answered before the connection is encrypted if
+    // encryption is required
+    if (ns == ns_client && configuration().streamSecurityMode() == QXmppConfiguration::TLSRequired && !socket()->isEncrypted()) {
+        return Rejected;
+    }
+
     // give client opportunity to handle stanza
     bool handled = false;
     Q_EMIT elementReceived(nodeRecv, handled);
